@@ -53,6 +53,11 @@ def main():
             meta["suite_passes_with_patch"] = rcs == 0
             meta["suite_summary"] = os_.strip().split("\n")[0]
         results = {}
+        ev_backup = {}
+        for c in checks:
+            evp = os.path.join(VERIF, "evidence", c + ".json")
+            if os.path.exists(evp):
+                ev_backup[evp] = open(evp).read()
         for c in checks:
             envc = dict(os.environ, VERIF_REPO=wt)
             rcc, oc = sh([os.path.join(VERIF, "check"), c, "--tier", tier], cwd=VERIF, env=envc, timeout=7200)
@@ -60,6 +65,8 @@ def main():
             results[c] = {"rc": rcc, "lines": lines[:8]}
             meta["ran"].append("VERIF_REPO=<worktree with patch> ./check %s --tier %s -> exit %d" % (c, tier, rcc))
         meta["check_results"] = results
+        for evp, content in ev_backup.items():  # evidence files must come from runs against /repo itself
+            open(evp, "w").write(content)
         meta["caught"] = any(r["rc"] == 1 for r in results.values())
     finally:
         sh(["git", "-C", "/repo", "worktree", "remove", "--force", wt])
